@@ -1,16 +1,13 @@
-"""Tables of the current source used by the C05 model (values only, no logic)."""
+"""Tables of the current source for C05: the plain value (`constants.TOL`, named by the model) first, then the probe of
+`get_patches_at_corner` in its own `emit.guard` group (named only by the tie theorem `T_C05_corner_table`)."""
 
 
-def emit_all(emit):
+def _corner_sides(emit):
+    # probe: an operation with a different patch name on every side; what get_patches_at_corner says
     from classy_blocks.construct.flat.face import Face
     from classy_blocks.construct.operations.loft import Loft
     from classy_blocks.util import constants
 
-    num, den = float(constants.TOL).as_integer_ratio()
-    emit("c05TolNum", "Nat", num, "constants.TOL as an exact fraction of the float64 value: numerator")
-    emit("c05TolDen", "Nat", den, "constants.TOL: denominator")
-
-    # probe: an operation with a different patch name on every side; what get_patches_at_corner says
     bottom = Face([[0, 0, 0], [1, 0, 0], [1, 1, 0], [0, 1, 0]])
     top = Face([[0, 0, 1], [1, 0, 1], [1, 1, 1], [0, 1, 1]])
     probe = Loft(bottom, top)
@@ -22,3 +19,12 @@ def emit_all(emit):
         [sorted(probe.get_patches_at_corner(c)) for c in range(8)],
         "Operation.get_patches_at_corner(c), c = 0..7, on a probe whose patches are named after their sides (sorted)",
     )
+
+
+def emit_all(emit):
+    from classy_blocks.util import constants
+
+    num, den = float(constants.TOL).as_integer_ratio()
+    emit("c05TolNum", "Nat", num, "constants.TOL as an exact fraction of the float64 value: numerator")
+    emit("c05TolDen", "Nat", den, "constants.TOL: denominator")
+    emit.guard(_corner_sides, emit)
